@@ -64,6 +64,17 @@ Base(id, n) ==
                                   Map(<<<<UInt(4), Bstr(<<49>>)>>>>), Bstr(Seq0(32)), Bstr(Fill(1, n))>>)]
     [] id = 16 -> [kind |-> "sig", ext |-> <<>>, payload |-> <<1, 2>>, slots |-> <<n>>,
                    tree |-> Arr(<<BstrW(Map(<<AlgP(n)>>)), Map(<<<<UInt(11), Arr(<<CsA, CsB, CsB, CsA>>)>>>>), Bstr(Fill(1, n))>>)]
+    [] id = 20 -> [kind |-> "sign1", ext |-> <<>>, payload |-> <<1, 2>>, slots |-> <<n>>,          \* tagged values inside protected parameters
+                   tree |-> Arr(<<BstrW(Map(<<AlgP(n), <<UInt(99), Tag(1, UInt(5))>>, <<Tstr(<<120>>), Tag(37, Bstr(<<1, 2>>))>>,
+                                              <<UInt(15), Map(<<<<UInt(6), Tag(1, UInt(7))>>, <<UInt(1), Tag(32, Tstr(<<117>>))>>>>)>>>>)),
+                                  Map(<<<<UInt(4), Bstr(<<49>>)>>>>), Bstr(<<1, 2>>), Bstr(Fill(1, n))>>)]
+    [] id = 21 -> [kind |-> "sign", ext |-> <<>>, payload |-> <<1, 2>>, slots |-> <<n>>,           \* the same in a signer's protected bucket
+                   tree |-> Arr(<<BstrW(Map(<<<<UInt(99), Tag(99999, Arr(<<UInt(1)>>))>>>>)), Map(<<>>), Bstr(<<1, 2>>),
+                                  Arr(<<Arr(<<BstrW(Map(<<AlgP(n), <<UInt(98), Tag(32, Tstr(<<117>>))>>>>)), Map(<<>>), Bstr(Fill(1, n))>>)>>)>>)]
+    [] id = 18 -> [kind |-> "sign1", ext |-> Seq0(255), payload |-> <<1, 2>>, slots |-> <<n>>,      \* external data of 255 bytes (last one-byte length)
+                   tree |-> Arr(<<BstrW(Map(<<AlgP(n)>>)), Map(<<>>), Bstr(<<1, 2>>), Bstr(Fill(1, n))>>)]
+    [] id = 19 -> [kind |-> "sign1u", ext |-> Seq0(256), payload |-> Seq0(65535), slots |-> <<n>>,   \* payload of 65535 bytes (last two-byte length)
+                   tree |-> Arr(<<BstrW(Map(<<AlgP(n)>>)), Map(<<>>), Bstr(Seq0(65535)), Bstr(Fill(1, n))>>)]
     [] id = 8 -> [kind |-> "sig", ext |-> <<>>, payload |-> <<1, 2>>, slots |-> <<n>>,
                   tree |-> Arr(<<BstrW(Map(<<AlgP(n), <<UInt(4), Bstr(<<49>>)>>>>)), Map(<<>>), Bstr(Fill(1, n))>>)]
 
